@@ -15,7 +15,8 @@ CASES = {'quick': 9000, 'thorough': 300000}
 PARALLEL = True
 RULE = ('request paths assembled from traversal-significant pieces (.., ., %2e%2e, %2f, \\, %5c, %00, //, absolute '
         'paths, overlong UTF-8, double encoding, names of files outside the root) mixed with names inside the root, '
-        'raw / percent-encoded once / twice, x 4 mountings (add_static_view route, catch-all *subpath route, plain '
+        'Unicode look-alikes of . .. / \\ and of existing names (computed from unicodedata: every character some normal form '
+        'maps onto them, ignorable characters, fullwidth / other-case names), raw / percent-encoded once / twice, x 4 mountings (add_static_view route, catch-all *subpath route, plain '
         'view on PATH_INFO, plain view with a given request.subpath) x filesystem and package-relative roots x '
         'Accept-Encoding values x content_encodings, plus all 6^4 combinations of six core pieces; non-trivial = the '
         'static view itself was reached and either answered 200/301 or the path contains a traversal-significant '
@@ -274,6 +275,84 @@ REAL_PATHS = ['', 'index.html', 'file.txt', 'file.txt', 'big.css', 'same.js', 'o
 MOUNT_PREFIX = {'route': '/static/', 'catchall': '/', 'view': '/', 'subpath': '/'}
 
 
+# ---- Unicode look-alikes: text that is NOT '.', '..', '/', '\\' or an existing name, but becomes one under a Unicode
+# transformation somebody might apply after the path has been vetted (NFC/NFD/NFKC/NFKD normalisation, case folding,
+# dropping ignorable or unencodable characters).  Computed from unicodedata, not listed by hand.
+_UNI = {}
+
+
+def _uni():
+    if _UNI:
+        return _UNI
+    import unicodedata
+    forms = ('NFKC', 'NFKD', 'NFC', 'NFD')
+    by_target = {}
+    for cp in range(0x80, 0x30000):
+        if 0xD800 <= cp <= 0xDFFF:
+            continue
+        ch = chr(cp)
+        for f in forms:
+            n = unicodedata.normalize(f, ch)
+            if n != ch and n in ('.', '..', '...', '/', '\\', '~', '%', ':'):
+                by_target.setdefault(n, set()).add(ch)
+    dots = sorted(by_target.get('.', ()))              # U+2024 U+FE52 U+FF0E ...
+    dotdots = sorted(by_target.get('..', ()))          # U+2025
+    slashes = sorted(by_target.get('/', ()))           # U+FF0F
+    backslashes = sorted(by_target.get('\\', ()))
+    ignorable = ['\u200b', '\u00ad', '\ufeff', '\u2060', '\u0300', '\u200d']
+    parents = list(dotdots)                            # segments that turn into '..'
+    for a in dots + ['.']:
+        for b in dots + ['.']:
+            if (a, b) != ('.', '.'):
+                parents.append(a + b)
+    parents += ['.' + z + '.' for z in ignorable] + [z + '..' for z in ignorable[:3]] + ['..' + z for z in ignorable[:3]]
+    singles = list(dots) + sorted(by_target.get('...', ())) + ['.' + ignorable[0], ignorable[1] + '.']
+
+    def wide(name):                                    # fullwidth forms of ASCII letters / digits / punctuation
+        return ''.join(chr(ord(c) + 0xFEE0) if 0x21 <= ord(c) <= 0x7E else c for c in name)
+    names = ['e\u0301.txt', 'E\u0301.TXT', wide('file.txt'), wide('sentinel.txt'), 'ﬁle.txt', 'FILE.TXT', 'File.Txt', 'SUB',
+             'Index.HTML', 'SENTINEL.TXT', 'file\u200b.txt', 'sub\u00ad', 'ſub', 'ſentinel.txt', 'ﬀ', 'K.txt']
+    joined = []                                        # one segment that turns into a path with separators
+    for sl in slashes + backslashes:
+        for par in parents[:6] + ['..']:
+            for tail in ('sentinel.txt', 'outside.txt', 'file.txt', 'secret' + sl + 'passwd'):
+                joined.append(par + sl + tail)
+        joined.append('sub' + sl + 'x.css')
+        joined.append('sub' + sl + '..' + sl + '..' + sl + 'sentinel.txt')
+        joined.append(sl + 'etc' + sl + 'passwd')
+    _UNI.update(parents=parents, singles=singles, names=names, joined=joined, slashes=slashes, backslashes=backslashes,
+                all=parents + singles + names + joined)
+    return _UNI
+
+
+def _pct(text, rng=None):
+    """UTF-8 percent-encoding of a piece as a client would send it ('/' and unreserved characters stay)."""
+    from urllib.parse import quote
+    if rng is not None and rng.random() < 0.15:
+        return text.encode('utf-8').decode('latin-1')          # raw UTF-8 bytes on the wire
+    return quote(text, safe="/~!$&'()*+,;=:@")
+
+
+def _gen_unicode_path(rng, mount):
+    """Look-alike segments mixed with names inside and outside the root."""
+    un = _uni()
+    segs = []
+    for _ in range(rng.choice([1, 1, 2, 2, 3, 4])):
+        r = rng.random()
+        if r < 0.40:
+            segs.append(_pct(rng.choice(un['parents']), rng))
+        elif r < 0.55:
+            segs.append(_pct(rng.choice(un['joined']), rng))
+        elif r < 0.65:
+            segs.append(_pct(rng.choice(un['singles'] + un['names']), rng))
+        elif r < 0.85:
+            segs.append(rng.choice(['sentinel.txt', 'outside.txt', 'secret', 'passwd', 'index.html', 'file.txt', 'static.gz']))
+        else:
+            segs.append(rng.choice(['sub', 'deep', 'noindex', 'file.txt', 'x.css', 'docs.v1']))
+    path = MOUNT_PREFIX[mount] + '/'.join(segs)
+    return path + ('/' if rng.random() < 0.15 else '')
+
+
 def _gen_real_path(rng, mount):
     """A path that names something inside the root, possibly damaged by one edit."""
     segs = rng.choice(REAL_PATHS).split('/')
@@ -289,7 +368,10 @@ def _gen_real_path(rng, mount):
 
 
 def _gen_path(rng, mount):
-    if rng.random() < 0.45:
+    r0 = rng.random()
+    if r0 < 0.10:
+        return _gen_unicode_path(rng, mount)
+    if r0 < 0.50:
         return _gen_real_path(rng, mount)
     prefix = rng.choice(PREFIXES[mount])
     k = rng.choice([0, 1, 1, 2, 2, 3, 3, 4, 5, 6])
@@ -410,6 +492,10 @@ def _add_instances(rng, case):
 
 
 def _gen_subpath(rng):
+    if rng.random() < 0.12:
+        un = _uni()
+        pool = un['all'] + ['sentinel.txt', 'outside.txt', 'sub', 'file.txt', 'secret', 'passwd'] * 8
+        return [rng.choice(pool) for _ in range(rng.choice([1, 2, 2, 3]))]
     if rng.random() < 0.3:
         return [x for x in rng.choice(REAL_PATHS).replace('%20', ' ').replace('%c3%a9', 'é').split('/') if x]
     k = rng.choice([0, 1, 1, 2, 2, 3, 4])
@@ -470,7 +556,8 @@ def _valid_req(mount, r):
         return False
     if not isinstance(r['subpath'], list):
         return False
-    if not all(isinstance(s, str) and all(ord(ch) < 0xD800 for ch in s) for s in r['subpath']):
+    if not all(isinstance(s, str) and all(ord(ch) < 0xD800 or 0xDFFF < ord(ch) < 0x110000 for ch in s)
+               for s in r['subpath']):
         return False
     if r['ae'] is not None and not isinstance(r['ae'], str):
         return False
@@ -879,7 +966,8 @@ def classify(case, obs, spec):
     return found.pop() if len(found) == 1 else None
 
 
-PIECES = ['..', '%2e', '%2f', '%5c', '\\', '%00', '//', '%c0', '%25', 'sentinel', 'secret', 'passwd', 'outside']
+PIECES = ['..', '%2e', '%2f', '%5c', '\\', '%00', '//', '%c0', '%25', 'sentinel', 'secret', 'passwd', 'outside',
+          '%e2%80%a4', '%e2%80%a5', '%ef%b9%92', '%ef%bc%8e', '%ef%bc%8f', '%ef%bc%bc', '%e2%80%8b']
 
 
 def _reached(obs):
@@ -899,6 +987,17 @@ def nontrivial(case, obs):
         return True
     text = case['path'].lower() + '\x01' + '\x01'.join(case['subpath'])
     return any(p in text for p in PIECES) or any(s in ('', '.', '..') or '/' in s or '\x00' in s for s in case['subpath'])
+
+
+def _lookalike(case):
+    """does the request carry a character that some Unicode normal form maps to '.', '/' or '\\' ?"""
+    un = _uni()
+    chars = set(''.join(un['parents'] + un['singles'] + un['slashes'] + un['backslashes'])) - set('.')
+    try:
+        text = _pi(case).encode('latin-1').decode('utf-8', 'ignore') + ''.join(case['subpath'])
+    except Exception:
+        text = ''.join(case['subpath'])
+    return any(ch in chars for ch in text)
 
 
 def kinds(case, obs):
@@ -927,7 +1026,8 @@ def kinds(case, obs):
                        ('backslash', '\\' in low or '%5c' in low), ('nul', '%00' in low), ('dslash', '//' in low),
                        ('overlong', '%c0' in low or '%e0%80' in low), ('double-enc', '%25' in low),
                        ('outside-name', 'sentinel' in low or 'passwd' in low or 'outside' in low),
-                       ('nonascii', _nonascii(case)), ('newline', '%0a' in low or '\n' in low)):
+                       ('nonascii', _nonascii(case)), ('newline', '%0a' in low or '\n' in low),
+                       ('unicode-lookalike', _lookalike(case))):
         if pred:
             k.append('piece-' + name)
     if case['ae'] is not None:
@@ -972,6 +1072,24 @@ def targeted(broken, disagreements, rng):
                 d = dict(base)
                 d['root'] = root
                 d['subpath'] = list(combo)
+                out.append(d)
+    un = _uni()
+    for root, outside in (('fs', 'sentinel.txt'), ('pkg', 'outside.txt'), ('fs-sub', 'file.txt'), ('pkgb', 'outside.txt')):
+        for par in un['parents']:
+            for mount in MOUNTS:
+                d = dict(base)
+                if mount == 'subpath':
+                    d.update(mount=mount, root=root, subpath=[par, outside])
+                else:
+                    d.update(mount=mount, root=root, path=MOUNT_PREFIX[mount] + _pct(par) + '/' + outside)
+                out.append(d)
+        for j in un['joined']:
+            for mount in MOUNTS:
+                d = dict(base)
+                if mount == 'subpath':
+                    d.update(mount=mount, root=root, subpath=[j])
+                else:
+                    d.update(mount=mount, root=root, path=MOUNT_PREFIX[mount] + _pct(j))
                 out.append(d)
     for mount, pre in (('route', '/static/'), ('catchall', '/')):
         for tail in ('file.txt%0a', 'file.txt\n', 'sub/%0a', 'sub%0a', '%0afile.txt', 'sub/x.css%0a', 'index.html%0a', '%0a',
